@@ -262,7 +262,7 @@ def weight_matrix(coords, grid, widths, params, kernel):
 
 def _call(r, key, fn):
     try:
-        return True, fn()
+        return True, r.twice(key, fn)
     except Exception as e:  # every generated input is inside the documented domain
         r.fail(key + ":raises", "%s: %s" % (type(e).__name__, str(e)[:300]))
         return False, None
